@@ -5,8 +5,11 @@ import asyncio
 import collections
 import itertools
 import json
+import pathlib
 import re
+import shutil
 import struct
+import tempfile
 import traceback
 from unittest.mock import MagicMock
 
@@ -19,7 +22,7 @@ from harness.common import Ctx, Driver, compare_with_model, hx, load_corpus
 
 import aiohomekit.controller.ip.connection as ipc
 from aiohomekit import hkjson
-from aiohomekit.characteristic_cache import CharacteristicCacheMemory
+from aiohomekit.characteristic_cache import CharacteristicCacheFile, CharacteristicCacheMemory
 from aiohomekit.controller.ip.discovery import IpDiscovery
 from aiohomekit.controller.ip.pairing import IpPairing
 from aiohomekit.http import HttpContentTypes
@@ -42,6 +45,12 @@ RULE = ("raw get/put/post and the pairing API (get/put characteristics, subscrib
         "some in flight together, over id sets that are disjoint from / overlap / lie inside / repeat earlier ones, ids of several accessories in any order, ids named twice - the request(s) written for a call carry "
         "exactly the ids / values of THAT call (nothing not named, nothing more often than named, everything named, per accessory in the caller's order, byte-for-byte compact), the expectation built from the "
         "harness's copy of the arguments; only the library's own re-subscription after a reconnect may carry the recorded set (harness's record). "
+        "OUTDATED DATABASE (stream stale-db): the same calls (get/put characteristics, subscribe, unsubscribe, identify) on a pairing whose accessory database is not what the accessory has now - fetched earlier "
+        "(list_accessories_and_characteristics / async_populate_accessories_state) and outdated since, read from the controller's characteristic cache by the constructor (in memory / the JSON file on disk), handed over with "
+        "restore_accessories_state, empty, or none at all; the accessory gained / lost an accessory, a service, a characteristic or renumbered its ids, changes again mid-history, the pairing refreshes in between - over id sets "
+        "all / partly (unknown id first, inside, last) / not at all in that database, every Iterable kind, first call on a never-connected pairing or on an established session, in-memory transport plain/encrypted and the real "
+        "IpPairing end to end against an accessory that answers 207 for ids it does not have: whatever IS written for a call is the canonical request for the payload issued (every item, caller's order, nothing dropped or added); "
+        "a call over ids the pairing was never told about may be refused with nothing written. "
         "non-trivial = distinct (entry point, host kind, secure?, body kind)")
 TRUSTED = ["orjson (compact output is checked structurally and by re-parsing, not modelled)", "cryptography ChaCha20Poly1305 to read the controller's encrypted frames"]
 ASSUMPTIONS = ["'only when there is a body' is read at the API the library exposes: get passes no body and emits neither header; put/post always pass one and emit both. "
@@ -55,7 +64,11 @@ ASSUMPTIONS = ["'only when there is a body' is read at the API the library expos
                "judged as a group: reads and writes one request each, registrations as the union). A subscribe / unsubscribe request is the compact document {\"characteristics\":[{\"aid\",\"iid\",\"ev\"}...]} in that key order; "
                "the ids of a call are written per accessory in the order the caller named them when the argument has an order (list, tuple, deque, dict...; not for sets) - how the ids are split over requests is not judged; "
                "an id named twice in one call may be written once or twice; only the library's own re-subscription on a new session may name ids of earlier calls, and then only ids registered and not taken back "
-               "(harness's record), each once. Calls made while the connection is down: an unsubscribe may write nothing; a subscribe's ids may be written once more (by the re-subscription that the reconnect performs)"]
+               "(harness's record), each once. Calls made while the connection is down: an unsubscribe may write nothing; a subscribe's ids may be written once more (by the re-subscription that the reconnect performs)",
+               "stale-db: 'known to the pairing' is the harness's own record of the database it handed over (cache / restore) or that the reference accessory last served on GET /accessories - never the library's state. "
+               "A call naming an id outside that record may be refused (on this tree put_characteristics raises KeyError / AttributeError before anything is written) or answered without a request: nothing written, nothing judged "
+               "(counted in the distribution); as soon as any request is written for the call it must be the canonical request for the WHOLE payload issued. Calls naming only known ids are judged strictly as everywhere else "
+               "(must not raise, must be written). GET /accessories and the pair-verify exchange the library issues by itself before serving a call are checked for their form and set aside"]
 EXPLANATION = "Lean theorems C09_* (request bytes = iOS spec form for all targets/hosts/bodies); differential tie through the real HomeKitConnection/IpPairing on an in-memory transport"
 
 HOSTS = ["10.0.0.7", "192.168.1.250", "fe80::1%eth0", "2001:db8::42", "::1"]
@@ -912,13 +925,35 @@ def judge_registration(ctx, what, c, given, ordered, seen, need_all=True):
     return True
 
 
-async def history_case(ctx, check, log, p, host, secure, port, layout, ops, case, net=None):
+async def history_case(ctx, check, log, p, host, secure, port, layout, ops, case, net=None, world=None, connected=True):
     """execute `ops` on the ONE pairing object `p`; `log` is the accessory-side request log.  For every call the requests
     that reached the accessory while the call ran are judged against the arguments of that call alone, the expectation
     being built from the harness's own copy of the arguments (and, for the re-subscription the library performs by
-    itself after a reconnect, from the harness's own record of what was registered and not taken back since)."""
+    itself after a reconnect, from the harness's own record of what was registered and not taken back since).
+    With a `world` (StaleWorld) the accessory database the pairing holds may be older than what the accessory has now:
+    ids the pairing was never told about may be refused by the library (nothing is written then), everything that IS
+    written is judged exactly as everywhere else - against the payload the caller issued."""
     record = set()
     mode = case["mode"]
+    stream = case.get("stream", "history")
+
+    def own_fetches(c, what, new):
+        """what the library writes by itself before it serves a call on a fresh pairing: the pair-verify exchange in the clear
+        and GET /accessories when it holds no database yet - canonical like any other request, then set aside"""
+        rest = []
+        for r in new:
+            raw = r[0]
+            if raw.startswith(b"POST /pair-verify "):
+                body = body_of(raw)
+                if not body or safe_untlv(body) is None or (len(r) > 2 and r[2]):
+                    ctx.violation("request/pair-verify/body", f"{what}: pair-verify request carries {body[:60]!r}" + (" on the encrypted session" if len(r) > 2 and r[2] else ""), c)
+                check("pair-verify", r[3] if len(r) > 3 else host, False, raw, r[1], "POST", "/pair-verify", TLV_CT, body, to_model=False, case=c)
+            elif line_of(raw).startswith(b"GET /accessories "):
+                canonical(c, "list_accessories", r, "GET", "/accessories", None, None)
+                ctx.dist[f"{stream}:library-fetched-the-database-by-itself"] += 1
+            else:
+                rest.append(r)
+        return rest
 
     def mk_arg(op):
         kname = op.get("kind", "list")
@@ -1003,18 +1038,44 @@ async def history_case(ctx, check, log, p, host, secure, port, layout, ops, case
     def describe(op):
         if op["op"] in ("identify", "reconnect", "drop"):
             return op["op"] + "()"
+        if op["op"] == "upgrade":
+            return f"[the accessory's database becomes {op['now']}]"
+        if op["op"] == "refresh":
+            return {"list": "list_accessories_and_characteristics()", "populate": "async_populate_accessories_state(force_update=True)"}[op["how"]]
+        if op["op"] == "restore":
+            return f"restore_accessories_state(<{op['db']}>)"
         if op["op"] == "concurrent":
             return "in flight together: [" + "; ".join(describe(o) for o in op["calls"]) + "]"
         return f"{op['op']}(<{op.get('kind', 'list')}> of {_short(_tuples(op['items']), 200)})"
 
-    dropped = False  # the accessory has just dropped the connection and nothing was awaited since: the next call is made on a pairing that is not connected
+    # the accessory has just dropped the connection and nothing was awaited since (or the pairing was never used yet): the next call is made on a pairing that is not connected
+    dropped = not connected
     for k, op in enumerate(ops):
         c = dict(case, ops=ops[:k + 1], at=k)
         name = op["op"]
         what = f"call {k + 1} of a history on one pairing ({mode}, {host}): {describe(op)}" + (f" after {', '.join(describe(o) for o in ops[max(0, k - 3):k])}" if k else "")
         ctx.evaluations += 1
-        ctx.dist[f"history:{name}"] += 1
+        ctx.dist[f"{stream}:{name}"] += 1
         n0 = len(log)
+        if name == "upgrade":
+            # a firmware update / a re-configured bridge: from now on the accessory answers from another database; the pairing is not told
+            world.now = _layout(op["now"])
+            continue
+        if name in ("refresh", "restore"):
+            try:
+                if name == "restore":
+                    p.restore_accessories_state(stale_accessory_list(_layout(op["db"])), op.get("config_num", 4), None)
+                    world.held = _layout_ids(_layout(op["db"]))  # the harness's record of the database it handed over itself
+                elif op["how"] == "list":
+                    await p.list_accessories_and_characteristics()
+                else:
+                    await p.async_populate_accessories_state(force_update=True)
+            except Exception as e:  # noqa: BLE001
+                ctx.violation(f"request/{name}/raised", f"{what} raised {type(e).__name__}: {e}", c)
+            rest = own_fetches(c, what, list(log[n0:]))
+            if rest:
+                ctx.violation("request/history/unexpected", f"{what}: wrote {[line_of(x[0]) for x in rest]}", c)
+            continue
         if name == "drop":
             if net is not None and net.open:
                 net.open[-1].peer_close()
@@ -1041,15 +1102,33 @@ async def history_case(ctx, check, log, p, host, secure, port, layout, ops, case
                 ctx.dist[f"history:{name}:id-named-twice"] += 1
             if dropped:
                 ctx.dist[f"history:{name}:called-while-disconnected"] += 1
+            raised = None
             try:
                 await getattr(p, name)(arg)
             except Exception as e:  # noqa: BLE001
-                ctx.violation(f"request/{name}/raised", f"{what}" + (" (called right after the accessory dropped the connection)" if dropped else "") + f" raised {type(e).__name__}: {e}", c)
+                raised = e
             if dropped:
                 await asyncio.sleep(45)
             new = list(log[n0:])
+            unknown = []
+            if world is not None:
+                # ids the pairing was never told about (harness's record of the databases it / the accessory handed to the pairing)
+                new = own_fetches(c, what, new)
+                unknown = world.unknown(ids_only)
+                sshape = stale_shape(ids_only, unknown)
+                ctx.dist[f"{stream}:{name}:{sshape}"] += 1
+                ctx.nontrivial.add((stream, mode, secure, name, sshape, case.get("relation"), case.get("load")))
+                what += f" [database the pairing was given: {world.held_text()}; the accessory has now: {world.now}]"
+            if raised is not None and not unknown:
+                ctx.violation(f"request/{name}/raised", f"{what}" + (" (called right after the accessory dropped the connection)" if dropped else "") + f" raised {type(raised).__name__}: {raised}", c)
             before = set(record)
-            if dropped and name == "subscribe":
+            if unknown and not new:
+                # the call names ids the pairing's database does not contain and nothing was put on the wire for it (the library
+                # refused the call, or answered it by itself): no request, so none out of form - recorded, not judged
+                ctx.dist[f"{stream}:{name}:{sshape}:" + (f"refused({type(raised).__name__})-nothing-written" if raised is not None else "returned-nothing-written")] += 1
+                if name == "subscribe":
+                    record.update(given)
+            elif dropped and name == "subscribe":
                 # the call's own registration and the library's re-registration on the new session are the same kind of
                 # request: together they name nothing but this call's ids and what was registered, the former at least once
                 # and at most once more than named, the latter at most once
@@ -1073,9 +1152,14 @@ async def history_case(ctx, check, log, p, host, secure, port, layout, ops, case
                     judge_write(c, what, given, ordered, new)
                 else:
                     # (an unsubscribe on a pairing that is not connected has no session to take anything back from: it may write nothing)
-                    judge_registration(ctx, what, c, given, ordered, registrations(c, what, name, new), need_all=not (dropped and name == "unsubscribe"))
+                    # (... and a call over ids unknown to the pairing's database that the library refused half way need not have written everything)
+                    judge_registration(ctx, what, c, given, ordered, registrations(c, what, name, new),
+                                       need_all=not (dropped and name == "unsubscribe") and not (unknown and raised is not None))
                     (record.update if name == "subscribe" else record.difference_update)(given)
-            dropped = False
+                if unknown:
+                    ctx.dist[f"{stream}:{name}:{sshape}:" + ("written-then-raised" if raised is not None else "written-in-full")] += 1
+            # (an unsubscribe on a pairing that was never used does not even connect: the accessory has still not seen a session, the next call finds the pairing as unconnected as this one)
+            dropped = dropped and world is not None and net is not None and not any(r[0].startswith(b"POST /pair-verify ") for r in log)
         elif name == "identify":
             try:
                 await p.identify()
@@ -1088,6 +1172,10 @@ async def history_case(ctx, check, log, p, host, secure, port, layout, ops, case
                 new, seen = own_traffic(c, what, new)
                 judge_resubscription(c, what + " [the reconnect it ran into]", seen, set(record))
                 dropped = False
+            if world is not None:
+                new = own_fetches(c, what, new)
+                layout = world.held_aids()  # the accessories of the database the pairing was given
+                what += f" [database the pairing was given: {world.held_text()}]"
             d = safe_json(body_of(new[0][0])) if len(new) == 1 else None
             try:
                 aid = d["characteristics"][0]["aid"]
@@ -1207,6 +1295,325 @@ async def history_endtoend(ctx, check, loop, host, port, seed, ops):
                 await p.close()
             except Exception:  # noqa: BLE001
                 pass
+
+
+# ---------------------------------------------------------------------------------------------------------------------
+# the accessory database the pairing holds is not the one the accessory has NOW: fetched earlier and outdated since (a bridge
+# gained / lost an accessory, a firmware update added a service or a characteristic, instance ids renumbered), a stale cache
+# read back from disk, an empty one, none at all.  The caller may know better than the pairing's database (it has seen the
+# new advertisement, another controller's view, a newer cache): it issues reads / writes / registrations over ids that the
+# database knows all, partly, or not at all.  Whatever the library then WRITES is judged as everywhere else: the canonical
+# request for the payload that was issued - every item, in the caller's order, nothing dropped, nothing added.
+STALE_BASE = {1: [9, 10, 11, 12], 2: [20, 21, 22], 3: [30, 31]}
+STALE_NOWHERE = [(1, 99), (1, 1000), (7, 70), (9, 2)]  # in no database of any world: unknown iid, a SERVICE's iid, unknown accessories
+STALE_LOADS = ["cache-memory", "cache-file", "restore", "fetched", "populate"]
+
+
+def _layout(d):
+    return None if d is None else {int(a): [int(i) for i in iids] for a, iids in d.items()}
+
+
+def _jlayout(d):
+    return None if d is None else {str(a): list(iids) for a, iids in d.items()}
+
+
+def _layout_ids(layout):
+    """every characteristic id of the database stale_accessory_list(layout) describes (iid 2 = Identify, iid 3 = Name in each accessory)"""
+    return {(a, i) for a, iids in layout.items() for i in list(iids) + [2, 3]}
+
+
+def stale_accessory_list(layout):
+    """an accessory database: per accessory the information service (iid 1: Identify 2, Name 3) and one service per decade of
+    the iids given (service iid 1000 + decade) - a new decade is a new service, a new iid in a decade a new characteristic of an
+    existing service; every third characteristic is write-only"""
+    out = []
+    for aid, iids in sorted(layout.items()):
+        services = [{"iid": 1, "type": ServicesTypes.ACCESSORY_INFORMATION, "characteristics": [{"iid": 2, "type": CharacteristicsTypes.IDENTIFY, "perms": ["pw"], "format": "bool"},
+                                                                                               {"iid": 3, "type": CharacteristicsTypes.NAME, "perms": ["pr"], "format": "string", "value": f"acc {aid}"}]}]
+        by = collections.defaultdict(list)
+        for iid in iids:
+            by[iid // 10].append(iid)
+        for dec, group in sorted(by.items()):
+            services.append({"iid": 1000 + dec, "type": ServicesTypes.LIGHTBULB,
+                             "characteristics": [dict({"iid": iid, "type": CharacteristicsTypes.ON, "format": "bool"}, **({"perms": ["pw"]} if iid % 3 == 0 else {"perms": ["pr", "pw", "ev"], "value": False}))
+                                                 for iid in group]})
+        out.append({"aid": aid, "services": services})
+    return out
+
+
+def stale_shape(ids, unknown):
+    """how the ids of a call relate to the database the pairing was given"""
+    if not unknown:
+        return "all-known"
+    if set(unknown) == set(ids):
+        return "all-unknown"
+    flags = [x in unknown for x in ids]
+    return "partly-known:unknown-first" if flags[0] else "partly-known:unknown-last" if flags[-1] else "partly-known:unknown-inside"
+
+
+class StaleWorld:
+    """the accessory side of the stale-database histories, HAP 6.7: answers from the database it has NOW (a request naming an id
+    it does not have is answered 207 Multi-Status with -70409 for that id) - and the harness's own record of the database
+    the pairing was last GIVEN (by the harness through cache / restore, or by this accessory answering GET /accessories)"""
+
+    def __init__(self, now, held=None):
+        self.now = _layout(now)
+        self.held = None if held is None else _layout_ids(_layout(held))
+
+    def unknown(self, ids):
+        return [tuple(x) for x in ids if self.held is None or tuple(x) not in self.held]
+
+    def held_aids(self):
+        return {a for a, _ in self.held} if self.held else set()
+
+    def held_text(self):
+        if self.held is None:
+            return "none"
+        by = collections.defaultdict(list)
+        for a, i in sorted(self.held):
+            by[a].append(i)
+        return str(dict(by))
+
+    def reply(self, method, target, body):
+        have = _layout_ids(self.now)
+        if method == "GET" and target == "/accessories":
+            self.held = set(have)
+            return http(json.dumps({"accessories": stale_accessory_list(self.now)}).encode())
+        if method == "GET" and target.startswith("/characteristics"):
+            ids = read_ids(f"GET {target} HTTP/1.1".encode()) or []
+            if all(x in have for x in ids):
+                return http(ref_json({"characteristics": [{"aid": a, "iid": i, "value": False} for a, i in ids]}))
+            return http(ref_json({"characteristics": [dict({"aid": a, "iid": i}, **({"status": 0, "value": False} if (a, i) in have else {"status": -70409})) for a, i in ids]}), code=b"207 Multi-Status")
+        if method == "PUT" and target == "/characteristics":
+            d = safe_json(body)
+            rows = d.get("characteristics") if isinstance(d, dict) else None
+            if not isinstance(rows, list) or not all(isinstance(r, dict) and type(r.get("aid")) is int and type(r.get("iid")) is int for r in rows):
+                return b"HTTP/1.1 204 No Content\r\n\r\n"  # (the harness judges the bytes itself)
+            if all((r["aid"], r["iid"]) in have for r in rows):
+                return b"HTTP/1.1 204 No Content\r\n\r\n"
+            return http(ref_json({"characteristics": [{"aid": r["aid"], "iid": r["iid"], "status": 0 if (r["aid"], r["iid"]) in have else -70409} for r in rows]}), code=b"207 Multi-Status")
+        if target == "/pairings":
+            return http(PAIRINGS_REPLY, TLV_CT.encode())
+        return http(b"{}")
+
+    def reply_raw(self, req: bytes) -> bytes:
+        parts = line_of(req).split(b" ")
+        return self.reply(parts[0].decode("utf-8", "replace"), target_of(req), body_of(req))
+
+
+def gen_stale_world(rng):
+    """(relation, database the pairing holds, database the accessory has now)"""
+    rel = rng.choice(["same", "gained-accessory", "gained-service", "gained-characteristic", "lost-accessory", "lost-characteristic", "renumbered", "several", "several", "none", "empty"])
+    cached = {a: list(i) for a, i in STALE_BASE.items()}
+    now = {a: list(i) for a, i in STALE_BASE.items()}
+
+    def change(kind):
+        if kind == "gained-accessory":
+            aid = rng.choice([4, 5, 17])
+            now[aid] = [rng.choice([9, 40, 41]), rng.choice([42, 50])]
+        elif kind == "gained-service":
+            aid = rng.choice(sorted(now))
+            now[aid] = now[aid] + [60 + rng.randrange(3), 64]
+        elif kind == "gained-characteristic":
+            aid = rng.choice(sorted(now))
+            now[aid] = now[aid] + [max(now[aid]) + 1]
+        elif kind == "lost-accessory":
+            now.pop(rng.choice([a for a in sorted(now) if a != 1] or [None]), None)
+        elif kind == "lost-characteristic":
+            aid = rng.choice(sorted(now))
+            now[aid] = now[aid][:-1] or now[aid]
+        elif kind == "renumbered":
+            aid = rng.choice(sorted(now))
+            now[aid] = [i + 100 for i in now[aid]]
+    if rel == "several":
+        for kind in rng.sample(["gained-accessory", "gained-service", "gained-characteristic", "lost-accessory", "lost-characteristic", "renumbered"], rng.randint(2, 3)):
+            change(kind)
+    elif rel in ("none", "empty"):
+        if rng.random() < 0.5:
+            change(rng.choice(["gained-accessory", "gained-service", "lost-accessory"]))
+        cached = None if rel == "none" else {}
+    else:
+        change(rel)
+    return rel, cached, now
+
+
+def _stale_ids(rng, held, everything, shape):
+    """the ids of one call: all known to the pairing's database, none, or some - the unknown ones first, last, inside, anywhere"""
+    known = sorted(x for x in held if x[1] != 3)
+    unknown = sorted(x for x in everything if x not in held and x[1] != 3)
+    ks = rng.sample(known, rng.randint(1, min(4, len(known)))) if known else []
+    us = rng.sample(unknown, rng.randint(1, min(3, len(unknown)))) if unknown else []
+    if shape == "all-known" and ks:
+        return _order_ids(rng, ks)
+    if shape == "all-unknown" or not ks:
+        return _order_ids(rng, us or ks)
+    if not us:
+        return _order_ids(rng, ks)
+    rest = ks + us[1:]
+    rng.shuffle(rest)
+    if shape == "unknown-first":
+        return us[:1] + rest
+    if shape == "unknown-last":
+        return rest + us[:1]
+    if shape == "unknown-inside" and len(ks) >= 2:
+        inner = ks[2:] + us
+        rng.shuffle(inner)
+        return ks[:1] + inner + ks[1:2]
+    rest = ks + us
+    rng.shuffle(rest)
+    return rest
+
+
+def gen_stale_history(rng, cached, now, n):
+    """calls on a pairing whose database is `cached` while the accessory has `now`: reads / writes / registrations over ids
+    that are all, partly or not in the database, identify, and - in between - the accessory changing once more, the pairing
+    refreshing its database (after which the ids it has just learned are ordinary ones) or being handed another one"""
+    cur = {a: list(i) for a, i in now.items()}
+    held = set(_layout_ids(cached)) if cached is not None else set()  # steers the generator only - the oracle keeps its own record (StaleWorld.held)
+    everything = set(STALE_NOWHERE) | _layout_ids(now) | (_layout_ids(cached) if cached else set())
+    ops = []
+    while len(ops) < n:
+        r = rng.random()
+        if r < 0.07 and ops:
+            cur = {a: list(i) for a, i in cur.items()}
+            aid = rng.choice([6, 8] + sorted(cur))
+            cur[aid] = cur.get(aid, []) + [rng.choice([70, 71, 80])]
+            everything |= _layout_ids(cur)
+            ops.append({"op": "upgrade", "now": _jlayout(cur)})
+        elif r < 0.15 and ops:
+            ops.append({"op": "refresh", "how": rng.choice(["list", "populate"])})
+            held = set(_layout_ids(cur))
+        elif r < 0.19 and ops:
+            db = {a: list(i) for a, i in rng.choice([STALE_BASE, cur, {1: [9, 10]}]).items()}
+            ops.append({"op": "restore", "db": _jlayout(db)})
+            held = set(_layout_ids(db))
+        elif r < 0.24:
+            if 1 in cur and (cached is None or 1 in {a for a, _ in held}):
+                ops.append({"op": "identify"})
+                if cached is None and not held:
+                    held = set(_layout_ids(cur))
+        else:
+            entry = rng.choice(["put_characteristics"] * 3 + ["get_characteristics", "subscribe", "unsubscribe"])
+            shape = rng.choice(["all-known", "all-unknown", "unknown-first", "unknown-last", "unknown-inside", "anywhere", "anywhere"])
+            ids = _stale_ids(rng, held, everything, shape)
+            if not ids:
+                continue
+            if entry in ("subscribe", "unsubscribe"):
+                ops.append({"op": entry, "kind": rng.choice(REITERABLE + ["list", "list"]), "items": [list(x) for x in ids]})
+            elif entry == "put_characteristics":
+                ops.append({"op": entry, "kind": rng.choice([k[0] for k in KINDS] + ["list", "list", "list"]), "items": [[a, i, rng.choice(HISTORY_VALUES)] for a, i in ids]})
+            else:
+                ops.append({"op": entry, "kind": rng.choice([k[0] for k in KINDS] + ["list", "list"]), "items": [list(x) for x in ids]})
+            if cached is None and not held and entry in ("put_characteristics", "get_characteristics"):
+                held = set(_layout_ids(cur))  # a pairing without any database fetches it before it serves a read / write
+    return ops
+
+
+def stale_grid():
+    """hand-written part: one outdated database, every id-taking entry point over every relation of the ids to it; then the
+    pairing refreshes its database and the same calls are ordinary ones"""
+    cached = {1: [9, 10], 2: [20]}
+    now = {1: [9, 10, 11, 50], 2: [20], 4: [40]}  # a characteristic, a service and a bridged accessory more than the pairing knows
+    sets = [[(1, 9), (2, 20)], [(1, 11)], [(4, 40)], [(1, 11), (1, 9)], [(1, 9), (4, 40), (2, 20)], [(1, 9), (1, 10), (1, 50)], [(1, 1000), (7, 70)], [(1, 11), (4, 40), (1, 10), (1, 50)]]
+    ops = []
+    for entry in ("put_characteristics", "get_characteristics", "subscribe", "unsubscribe"):
+        for k, ids in enumerate(sets):
+            items = [[a, i, HISTORY_VALUES[(k + j) % len(HISTORY_VALUES)]] for j, (a, i) in enumerate(ids)] if entry == "put_characteristics" else [list(x) for x in ids]
+            ops.append({"op": entry, "kind": ("list", "tuple", "deque")[k % 3], "items": items})
+    again = [dict(o) for o in ops if o["op"] == "put_characteristics"]
+    return [(cached, now, ops + [{"op": "identify"}, {"op": "refresh", "how": "list"}] + again),
+            (None, now, ops[3:6] + ops[:3]),
+            ({}, now, ops[:8])]
+
+
+async def stale_rig(ctx, check, loop, case):
+    """a stale-database history on a pairing whose connection is the real HomeKitConnection (plain or encrypted) over the
+    in-memory transport; the database is put in place directly (load 'direct') or there is none"""
+    host, secure, port = case["host"], case["secure"], case["port"]
+    cached = _layout(case["cached"])
+    world = StaleWorld(case["now"], cached)
+    rig = Rig(loop, host, secure, port)
+    rig.responder = world.reply_raw
+    conn = await rig.connect()
+    try:
+        p = mk_pairing(conn, {})
+        p._accessories_state = None if cached is None else AccessoriesState(Accessories.from_list(stale_accessory_list(cached)), 3, None, 0)
+        await history_case(ctx, check, rig.requests, p, host, secure, port, {}, case["ops"], case, world=world)
+    finally:
+        await conn.close()
+
+
+async def stale_endtoend(ctx, check, loop, case):
+    """a stale-database history on the real IpPairing(controller, pairing_data) against the reference accessory; the database
+    reaches the pairing the public way: read from the controller's characteristic cache by the constructor (in memory, or
+    the JSON file a previous run left on disk), handed over with restore_accessories_state, or fetched from the accessory
+    (list_accessories_and_characteristics / async_populate_accessories_state) BEFORE the accessory changed"""
+    import random
+    rnd = random.Random(case["seed"])
+
+    def rb(n):
+        return bytes(rnd.randrange(256) for _ in range(n))
+    host, port, load = case["host"], case["port"], case["load"]
+    cached, now = _layout(case["cached"]), _layout(case["now"])
+    net = simnet.Net(loop)
+    world = StaleWorld(now)
+    acc = Accessory(loop, net, rb, accessories=[])
+    tap = Tap(acc, net)
+    acc.responder = lambda s, method, target, body: world.reply(method, target, body)
+    pd = acc.pairing_data([host], port)
+    ctrl = MagicMock()
+    ctrl.pairings = {}
+    ctrl._char_cache = CharacteristicCacheMemory()
+    tmp = None
+    try:
+        if cached is not None and load == "cache-memory":
+            ctrl._char_cache.async_create_or_update_map(pd["AccessoryPairingID"], 3, stale_accessory_list(cached))
+            world.held = _layout_ids(cached)
+        elif cached is not None and load == "cache-file":
+            tmp = tempfile.mkdtemp(prefix="c09-cache-")
+            path = pathlib.Path(tmp) / "characteristic-cache.json"
+            path.write_text(json.dumps({"pairings": {pd["AccessoryPairingID"]: {"config_num": 3, "accessories": stale_accessory_list(cached), "broadcast_key": None, "state_num": None}}}), encoding="utf-8")
+            ctrl._char_cache = CharacteristicCacheFile(path)
+            world.held = _layout_ids(cached)
+        with net.patched():
+            p = IpPairing(ctrl, pd)
+            try:
+                if cached is not None and load == "restore":
+                    p.restore_accessories_state(stale_accessory_list(cached), 3, None)
+                    world.held = _layout_ids(cached)
+                elif cached is not None and load in ("fetched", "populate"):
+                    world.now = cached
+                    try:
+                        await (p.list_accessories_and_characteristics() if load == "fetched" else p.async_populate_accessories_state())
+                    except Exception as e:  # noqa: BLE001
+                        ctx.violation("request/endtoend/raised", f"first use (connect, pair-verify, GET /accessories) on {host} raised {type(e).__name__}: {e}", dict(case, ops=[]))
+                        return
+                    world.now = now  # ... and only then the accessory changes
+                connected = load in ("fetched", "populate") and cached is not None
+                if not connected and case.get("connect_first"):
+                    # the session is set up by a call that has nothing to do with the database
+                    try:
+                        await p.list_pairings()
+                    except Exception as e:  # noqa: BLE001
+                        ctx.violation("request/endtoend/raised", f"first use (connect, pair-verify, list_pairings) on {host} raised {type(e).__name__}: {e}", dict(case, ops=[]))
+                        return
+                    connected = True
+                await history_case(ctx, check, tap.requests, p, host, True, port, {}, case["ops"], case, net=net, world=world, connected=connected)
+            finally:
+                try:
+                    await p.close()
+                except Exception:  # noqa: BLE001
+                    pass
+    finally:
+        if tmp is not None:
+            shutil.rmtree(tmp, ignore_errors=True)
+
+
+async def stale_case(ctx, check, loop, case):
+    if case["mode"] == "endtoend":
+        await stale_endtoend(ctx, check, loop, case)
+    else:
+        await stale_rig(ctx, check, loop, case)
 
 
 def run(ctx: Ctx, driver: Driver):
@@ -1477,6 +1884,31 @@ def run(ctx: Ctx, driver: Driver):
         ops = (FIXED_HISTORIES[0][:3] + [{"op": "reconnect", "settle": [[1, 11]]}] + FIXED_HISTORIES[0][3:]) if k == 0 else gen_history(rng, HISTORY_LAYOUT, rng.randint(5, 14), reconnect=True)
         drive(history_endtoend(ctx, check, loop, host, port, seed, ops), f"history end to end on {host} port {port} (seed {seed})",
               {"stream": "history", "mode": "endtoend", "host": host, "port": port, "secure": True, "seed": seed, "layout": {str(a): i for a, i in HISTORY_LAYOUT.items()}, "ops": ops})
+    # the pairing's accessory database is older than / different from what the accessory has now, or missing: hand-written grid, then generated worlds
+    def stale(mode, host, port, secure, load, relation, cached, now, ops, seed=0):
+        case = {"stream": "stale-db", "mode": mode, "host": host, "port": port, "secure": secure, "seed": seed, "load": load, "relation": relation,
+                "connect_first": seed % 2 == 0, "cached": _jlayout(cached), "now": _jlayout(now), "ops": ops}
+        check.port = port
+        ctx.dist[f"stale-db:world:{relation}"] += 1
+        ctx.dist[f"stale-db:load:{load}"] += 1
+        drive(stale_case(ctx, check, loop, case), f"history on a pairing with an outdated accessory database ({mode}, {load}) on {host}", case)
+    sk = 0
+    for cached, now, ops in stale_grid():
+        for mode, secure, load in (("transport", False, "direct"), ("transport", True, "direct"), ("endtoend", True, "cache-memory"), ("endtoend", True, "fetched")):
+            host = HOSTS[sk % len(HOSTS)]
+            sk += 1
+            rel = "none" if cached is None else "empty" if not cached else "grid"
+            stale(mode, host, 80, secure, "none" if cached is None else load, rel, cached, now, ops, seed=sk)
+    lk = 0
+    for k in range(ctx.budget(40, 300)):
+        rel, cached, now = gen_stale_world(rng)
+        host = HOSTS[k % len(HOSTS)]
+        ops = gen_stale_history(rng, cached, now, rng.randint(4, 10))
+        if k % 4 == 3:
+            stale("transport", host, rng.choice([80, 80, 8080]), rng.random() < 0.5, "none" if cached is None else "direct", rel, cached, now, ops)
+        else:
+            lk += 1
+            stale("endtoend", host, rng.choice([80, 80, 51827, 32768]), True, "none" if cached is None else STALE_LOADS[lk % len(STALE_LOADS)], rel, cached, now, ops, seed=rng.randrange(2 ** 32))
     check.port = 80
     ctx.sample(cases[1])
     ctx.sample(cases[-1])
@@ -1537,6 +1969,8 @@ def replay(ctx, driver, c):
                 await history_endtoend(rctx, check, loop, host, port, c["seed"], c["ops"])
             else:
                 await history_rig(rctx, check, loop, host, secure, port, c["ops"])
+        elif stream == "stale-db":
+            await stale_case(rctx, check, loop, c)
         elif stream == "endtoend" and "seed" in c:
             await endtoend_case(rctx, check, loop, host, c["seed"], None, port)
         elif stream == "request" and c.get("kind") in ("get", "put", "post", "put-tlv", "request-get", "request-body"):
